@@ -34,12 +34,17 @@ CHECKS = {
                 text="HeapInv (partition of blocks into reachable / linear free / deferred / waiting, exact reference counts, no "
                      "reference into a free list, nothing written beyond the frontier) is evaluated by TLC on the concrete heap "
                      "words and registers of the ISA machines at every statement marker of every run on all three backends; "
-                     "MemInBounds at every instruction.",
-                note="Per-run exhaustive, program space sampled (allocation-heavy generated programs, loops corpus).",
+                     "MemInBounds at every instruction. The allocator design model spec/AxCutHeap.tla is model-checked for the same invariant "
+                     "and its let/dup/drop/switch histories (BFS sample and deep random ones, also behind padding variables that "
+                     "spill every block pointer) are replayed as linear programs through the real backends; explicit-substitution "
+                     "families share and erase objects on both sides of each spill boundary.",
+                note="Per-run exhaustive, program space sampled (allocation-heavy generated programs, loops corpus, replayed histories).",
                 technique="TLA+ state invariant over concrete heap of ISA machine in lock-step product, TLC"),
     "C10": dict(level="model_checking", design="§6 C10",
                 text="Footprint invariant frontier <= peak reachable + K (K = 2) at every statement marker on all backends, plus "
-                     "build-and-drop loops with n, 4n, 16n iterations that must end with identical frontiers.",
+                     "build-and-drop loops with n, 4n, 16n iterations that must end with identical frontiers; the rule 'fresh memory only "
+                     "when both free lists are empty' (if the frontier moved since the previous marker, at most one block is on the "
+                     "lists); replay of the allocator design model's histories (spec/AxCutHeap.tla, Footprint model-checked).",
                 note="K fixed by the reasoning in DESIGN §6 C10; peak sampled at statement boundaries.",
                 technique="TLA+ history-variable invariant in lock-step product, TLC"),
     "C11": dict(level="model_checking", design="§6 C11",
@@ -88,7 +93,8 @@ CHECKS.update({
                 technique="TLA+ observational-equivalence product (spec/Equiv.tla) + reachability walker (spec/CoreTyping.tla), TLC"),
     "C03": dict(level="translation_validation", design="§6 C03",
                 text="Core machine with dynamic focusing on the unfocused program vs the same machine on the uniquified and the focused "
-                     "program (effects in every argument position); walker in mode unique checks distinct binders along every path, "
+                     "program (random programs with effects anywhere plus the systematic effect-order corpus: a printing computation in every "
+                     "argument position of every term form, nested to depth 2); walker in mode unique checks distinct binders along every path, "
                      "ids non-zero and <= max_id.",
                 note="Hypothesis (well-typed Core input) is checked by the walker; failing inputs are blamed on C02.",
                 technique="TLA+ observational-equivalence product + reachability walker, TLC"),
@@ -130,7 +136,8 @@ CHECKS.update({
                 text="Every emitted file of every generated program, on all three backends, is judged statically by spec/AsmWF.tla: "
                      "LabelsUnique, TargetsDefined, NoSymbolClash, AllEncodable (operand ranges of every printed form), TableStride. "
                      "x86-64 files are additionally assembled by GNU as, whose verdict must agree with the specification in both "
-                     "directions. Adaptive adversarial naming: user definitions/types named exactly like generated labels.",
+                     "directions. Adaptive adversarial naming: user definitions/types named exactly like generated labels, appended or "
+                     "obtained by renaming a helper definition (which leaves the numbering of generated names unchanged).",
                 note="No AArch64/RISC-V assembler installed: their operand ranges are from the architecture manual.",
                 technique="TLA+ static well-formedness predicates evaluated by TLC on tokenised real output + GNU as cross-check"),
     "C15": dict(level="model_checking", design="§6 C15",
@@ -144,18 +151,21 @@ CHECKS.update({
                 text="Token sequences of every term form nested in every operand position (depth 2) are derived by TLC from the "
                      "generative grammar spec/FunGrammar.tla (which models the lexer's zero-test fusion); each is rendered by the real "
                      "printer at sampled/all width x indent pairs, reparsed, compared as trees, printed again; in-place mode of the real "
-                     "binary on scratch copies; records judged by spec/TraceFmt.tla.",
+                     "binary on scratch copies; generated programs (nested type instances) and a signature family (binding form x type "
+                     "nesting x name length x position); records judged by spec/TraceFmt.tla.",
                 note="The layout algorithm of the pretty crate is not modelled, only its effect (non-blank characters, tree, fixpoint).",
                 technique="TLA+ generative grammar enumerated by TLC, replayed into the real parser/printer, records validated in TLC"),
     "C18": dict(level="exploration", design="§6 C18",
                 text="All single (thorough: windowed double) token mutations of three base programs are enumerated by TLC from "
-                     "spec/Mutate.tla; random byte-level edits, extreme shapes and non-UTF-8 files are added; every replay's stage-event "
+                     "spec/Mutate.tla; random byte-level edits, single ill-typed edits of generated programs (the edit classes of C15), "
+                     "extreme shapes and non-UTF-8 files are added; every replay's stage-event "
                      "trace is validated by spec/TracePipeline.tla, where a panic is in no outcome alphabet; accepted programs with a "
                      "valid main continue through all backends.",
                 note="The byte-level space is sampled, not enumerated.",
                 technique="TLA+ mutation model enumerated by TLC + trace validation against the pipeline specification"),
     "C19": dict(level="exploration", design="§6 C19",
-                text="Six scalable families at depth 4, 8, 12, 16 through the real pipeline; spec/Sizes.tla evaluates Growth "
+                text="63 scalable families (7 kinds of branch point x 9 positions of the rest of the program, sequenced and nested) at depth "
+                     "4, 8, 12, 16 through the real pipeline; spec/Sizes.tla evaluates Growth "
                      "(s(16) <= 10 s(8), s(12) <= 40 s(4)) and Quadratic on the measured node / instruction counts of every stage.",
                 note="Weakest claim: TLC only evaluates the bound on measurements.",
                 technique="measurement of real artifacts judged by a TLA+ bound predicate in TLC"),
